@@ -21,7 +21,10 @@ def apply_edit(root, m):
         p = os.path.join(root, ed['file'])
         with open(p) as f:
             t = f.read()
-        if t.count(ed['old']) != ed.get('count', 1):
+        if ed.get('count') == 'any':
+            if t.count(ed['old']) == 0:
+                return 'edit does not apply (0 matches of old text in %s)' % ed['file']
+        elif t.count(ed['old']) != ed.get('count', 1):
             return 'edit does not apply (%d matches of old text in %s)' % (t.count(ed['old']), ed['file'])
         t = t.replace(ed['old'], ed['new'])
         with open(p, 'w') as f:
